@@ -80,6 +80,8 @@ structure NodeOK (nw : NodeWriter) (cs : List WNode) (rs : List Nat) (c : Nat) :
     o.cOffsetCLength % 2 ^ 48 + (if o.isBranch then nw.indexCOffset else nw.dataCOffset) ≤ nw.cFileSize
   res : ∀ r ∈ rs, nw.resourcesCOffCLens.getD r 0 < 2 ^ 56 ∧
     nw.resourcesCOffCLens.getD r 0 % 2 ^ 48 + nw.dataCOffset ≤ nw.cFileSize
+  /-- the resources the children name are listed (not needed for parsing; used for the resource CRanges) -/
+  tags : ∀ o ∈ cs, (o.secondary ≠ 0 → o.secondary ∈ rs) ∧ (o.tertiary ≠ 0 → o.tertiary ∈ rs)
 
 theorem prefixSize_zero (cs : List WNode) : prefixSize cs 0 = 0 := by simp [prefixSize]
 
